@@ -605,6 +605,107 @@ def extract_templates(repo: Path):
     return entries
 
 
+
+# ----------------------------------------------------------------- summary / "Read more" link, path normalisation
+
+def extract_readmore(repo: Path):
+    """Shape of the summary rule and of the "Read more" link in FortranBase.markdown (ford/sourceform.py)."""
+    import ford.sourceform as sf
+
+    if sf.PARA_CAPTURE_RE.pattern != r"<p>.*?</p>":
+        raise LookupError("PARA_CAPTURE_RE changed: " + sf.PARA_CAPTURE_RE.pattern)
+    tree = ast.parse((repo / "ford" / "sourceform.py").read_text())
+    fn = _func(tree, "FortranBase", "markdown")
+    for name, cls in vars(sf).items():
+        if isinstance(cls, type) and issubclass(cls, sf.FortranBase) and cls is not sf.FortranBase and "markdown" in vars(cls):
+            raise LookupError(f"{name} overrides markdown()")
+    assigns = [n for n in ast.walk(fn) if isinstance(n, (ast.Assign, ast.AugAssign))
+               and ast.unparse(n.targets[0] if isinstance(n, ast.Assign) else n.target) == "self.meta.summary"]
+    if len(assigns) != 4:
+        raise LookupError(f"FortranBase.markdown: {len(assigns)} assignments to self.meta.summary (expected 4)")
+    # the if / elif / else chain
+    chain = None
+    for n in ast.walk(fn):
+        if isinstance(n, ast.If) and ast.unparse(n.test) == "self.meta.summary is not None":
+            chain = n
+    if chain is None or len(chain.body) != 1 or len(chain.orelse) != 1 or not isinstance(chain.orelse[0], ast.If):
+        raise LookupError("FortranBase.markdown: `if self.meta.summary is not None` chain has an unexpected shape")
+    if not ast.unparse(chain.body[0]).startswith("self.meta.summary = md.convert("):
+        raise LookupError("FortranBase.markdown: explicit summary is not md.convert(...)")
+    el = chain.orelse[0]
+    if ast.unparse(el.test) != "(paragraph := PARA_CAPTURE_RE.search(self.doc))" or len(el.body) != 1 or len(el.orelse) != 1:
+        raise LookupError("FortranBase.markdown: paragraph branch has an unexpected shape: " + ast.unparse(el.test))
+    if ast.unparse(el.orelse[0]) != "self.meta.summary = ''":
+        raise LookupError("FortranBase.markdown: summary of a documentation without paragraph is not ''")
+    val = ast.unparse(el.body[0].value) if isinstance(el.body[0], ast.Assign) else "?"
+    if val in ("paragraph.group() if self.get_url() else self.doc", "paragraph.group() if self.get_url() is not None else self.doc"):
+        rule = "cutIfUrl"
+    elif val == "paragraph.group()":
+        rule = "cutAlways"
+    else:
+        raise LookupError("FortranBase.markdown: unsupported summary rule: " + val)
+    # the link
+    link_if = None
+    for n in ast.walk(fn):
+        if isinstance(n, ast.If) and len(n.body) == 1 and isinstance(n.body[0], ast.AugAssign) \
+                and ast.unparse(n.body[0].target) == "self.meta.summary":
+            link_if = n
+    if link_if is None or link_if.orelse or not isinstance(link_if.body[0].op, ast.Add):
+        raise LookupError("FortranBase.markdown: `self.meta.summary += <link>` not found under a plain `if`")
+    cmp_txt = "self.meta.summary.strip() != self.doc.strip()"
+    t = link_if.test
+    if ast.unparse(t) == cmp_txt:
+        needs_url = False
+    elif isinstance(t, ast.BoolOp) and isinstance(t.op, ast.And) and len(t.values) == 2 \
+            and sorted(ast.unparse(v) for v in t.values) == sorted([cmp_txt, "self.get_url()"]):
+        needs_url = True
+    else:
+        raise LookupError("FortranBase.markdown: unsupported guard of the Read-more link: " + ast.unparse(t))
+    v = link_if.body[0].value
+    if not (isinstance(v, ast.JoinedStr) and len(v.values) == 3 and isinstance(v.values[0], ast.Constant)
+            and v.values[0].value == '<a href="../' and isinstance(v.values[1], ast.FormattedValue)
+            and ast.unparse(v.values[1].value) == "self.get_url()" and v.values[2].value.startswith('"')):
+        raise LookupError("FortranBase.markdown: the Read-more link is not f'<a href=\"../{self.get_url()}\" ...'")
+    return {"summary_rule": rule, "link_needs_url": needs_url}
+
+
+def extract_relurl(repo: Path):
+    """How ford.utils.normalise_path tidies a path setting, what relative_url searches for in the link text,
+    and where project_url comes from in relative mode."""
+    tree = ast.parse((repo / "ford" / "utils.py").read_text())
+    fn = _func(tree, None, "normalise_path")
+    body = [b for b in fn.body if not (isinstance(b, ast.Expr) and isinstance(b.value, ast.Constant))]
+    if len(body) != 1 or not isinstance(body[0], ast.Return):
+        raise LookupError("normalise_path: expected a single return statement")
+    ret = ast.unparse(body[0].value)
+    joined = "base_dir / os.path.expandvars(path)"
+    if ret == f"({joined}).absolute().resolve()" or ret == f"({joined}).resolve()":
+        mode = "resolve"
+    elif ret in (f"pathlib.Path(os.path.abspath({joined}))", f"pathlib.Path(os.path.normpath(({joined}).absolute()))",
+                 f"({joined}).absolute()"):
+        # (`.absolute()` alone does not even collapse `..`; for the link mechanism it is the same case: links kept)
+        mode = "abspath"
+    else:
+        raise LookupError("normalise_path: unsupported return expression: " + ret)
+    tree = ast.parse((repo / "ford" / "output.py").read_text())
+    ru = ast.unparse(_func(tree, None, "relative_url"))
+    if "link_path = str(pathlib.Path(link_href).resolve())" in ru:
+        resolves = True
+    elif "link_path = link_href" in ru or "link_path = str(link_href)" in ru:
+        resolves = False
+    else:
+        raise LookupError("relative_url: assignment to link_path has an unsupported shape")
+    if "return link_str.replace(link_path, new_path)" not in ru:
+        raise LookupError("relative_url no longer returns link_str.replace(link_path, new_path)")
+    tree = ast.parse((repo / "ford" / "settings.py").read_text())
+    np_ = ast.unparse(_func(tree, "ProjectSettings", "normalise_paths"))
+    if "setattr(self, key, normalise_path(self.directory, value))" not in np_:
+        raise LookupError("ProjectSettings.normalise_paths no longer puts Path settings through normalise_path")
+    if "if self.relative:\n        self.project_url = self.output_dir" not in np_:
+        raise LookupError("ProjectSettings.normalise_paths: project_url is not output_dir in relative mode")
+    return {"normalise_mode": mode, "relurl_resolves": resolves}
+
+
 # ----------------------------------------------------------------- main
 
 def extract(repo: Path | None = None) -> dict:
@@ -615,13 +716,16 @@ def extract(repo: Path | None = None) -> dict:
     sfd = extract_sourceform(repo)
     nav = extract_templates(repo)
     vis = extract_visible(repo, page_map, parts)
+    vis.update(extract_readmore(repo))
+    vis.update(extract_relurl(repo))
     return dict(page_map=page_map, list_conds=list_conds, out_dirs=out_dirs, allfiles=parts, main_pre=pre, nav=nav, **sfd, **vis)
 
 
 def to_lean(d: dict) -> str:
-    L = ["/- GENERATED by translate/c09.py from ford/output.py, ford/sourceform.py, ford/fortran_project.py,",
+    L = ["/- GENERATED by translate/c09.py from ford/output.py, ford/sourceform.py, ford/fortran_project.py, ford/utils.py, ford/settings.py,",
          "   ford/__init__.py, ford/templates/base.html, ford/templates/index.html - do not edit -/",
-         "import FordModel.Nav", "import FordModel.Url", "import FordModel.StrLink", "namespace Ford.Generated.C09",
+         "import FordModel.Nav", "import FordModel.Url", "import FordModel.StrLink", "import FordModel.ReadMore", "import FordModel.Relurl",
+         "namespace Ford.Generated.C09",
          "open Ford Ford.Nav Ford.Url", ""]
     L.append("def navTables : Nav.Tables := {")
     L.append("  listPageConds := [")
@@ -673,6 +777,12 @@ def to_lean(d: dict) -> str:
     L.append("  ],")
     L.append("  defaultVisible := %s" % ("true" if d["default_visible"] else "false"))
     L.append("}")
+    L += ["", "/-- FortranBase.markdown: value of meta.summary in the PARA_CAPTURE_RE branch; guard of the Read-more link -/",
+          "def summaryTables : ReadMore.Tables := { rule := ReadMore.CutRule.%s, linkNeedsUrl := %s }" % (
+              d["summary_rule"], "true" if d["link_needs_url"] else "false"),
+          "", "/-- ford.utils.normalise_path; what ford.output.relative_url searches for in the link text -/",
+          "def relurlTables : Relurl.Tables := { normalise := Relurl.NormMode.%s, relurlResolves := %s }" % (
+              d["normalise_mode"], "true" if d["relurl_resolves"] else "false")]
     L += ["", "end Ford.Generated.C09", ""]
     return "\n".join(L)
 
